@@ -30,6 +30,8 @@ pub struct Violation {
 pub struct Partial {
     pub evaluations: u64,
     pub nontrivial: HashSet<u64>,
+    /// non-trivial cases that are distinct by construction (exhaustive enumeration)
+    pub nontrivial_enumerated: u64,
     pub samples: Vec<Value>,
     pub classes: Counters,
     pub per_unit: BTreeMap<String, u64>,
@@ -43,6 +45,7 @@ impl Partial {
     pub fn merge(&mut self, o: Partial) {
         self.evaluations += o.evaluations;
         self.nontrivial.extend(o.nontrivial);
+        self.nontrivial_enumerated += o.nontrivial_enumerated;
         for s in o.samples {
             if self.samples.len() < 12 {
                 self.samples.push(s);
